@@ -288,7 +288,7 @@ def obligations(tier, seed):
                         "opts": {"budget_s": 600, "ctx": {"loop_bound": 1000}},
                         "witness": bs == 7 and n in (2, 3),
                     })
-                if kind == "field" and framing == "CRLF" and n in ((2, 3) if tier == "quick" else (2, 3, 4)):
+                if kind == "field" and framing == "CRLF" and n in (2, 3):  # (n=4 did not finish within the per-obligation budget in the measured thorough run)
                     # arbitrary bytes in a text field (multi-byte and ill-formed UTF-8): the decoded
                     # value must not depend on where a read cuts the bytes
                     head = len(b"--b" + K + b'Content-Disposition: form-data; name="a"' + K + K)
